@@ -137,3 +137,9 @@ pub open spec fn dec_bytes(t: Seq<char>) -> Option<Seq<u8>>
 pub open spec fn bytes_is(r: Result<Vec<u8>, ParseSequenceError>, want: Option<Seq<u8>>) -> bool {
     match want { Some(w) => r matches Ok(o) && o@ == w, None => r is Err }
 }
+/// UTF-8 encoding of a text (what a raw bytes literal denotes)
+pub open spec fn utf8_of(t: Seq<char>) -> Option<Seq<u8>>
+    decreases t.len()
+{
+    if t.len() == 0 { Some(Seq::empty()) } else { match utf8_of(t.skip(1)) { Some(r) => Some(utf8_bytes(t[0]) + r), None => None } }
+}
